@@ -39,6 +39,7 @@ type Fx struct {
 	ret           []*retCtx
 	jumps         []*jumpCtx
 	loopOrd       int
+	maxLoopOrd    int // highest loop ordinal met (loop contracts beyond it bind to nothing)
 	spec          *FuncSpec
 	params        []types.Object
 	recv          types.Object
